@@ -50,3 +50,6 @@ add("C06", "lazy/eager differential under many chunk compositions and schedules 
     "Each lazy result is built under a callback that must see no graph execution, then computed under 2-3 schedulers and "
     "compared (values bit-exact, dims, coords, name) with the in-memory result; the number of distinct task execution orders "
     "actually observed is in the evidence.", "2/C06")
+add("C12", "differential over fresh interpreters started with different PYTHONHASHSEED (byte-identical canonical records), plus in-process permutation of the link table's insertion order",
+    "No model of the right answer is needed: the same seeded scenarios must give identical records under every hash seed tried; "
+    "the evidence counts the distinct set iteration orders actually exercised.", "2/C12")
